@@ -33,7 +33,7 @@ var c06Cmds = []c06Cmd{
 	// option variants of the stateful commands (a limit with a condition, limits on sort, two-pass forms, per-group state)
 	{"head limit=2 (b>0)", "keep", true}, {"head (a<3) keeplast=true", "keep", true}, {"tail 1", "keep", true},
 	{"sort 2 -b", "sorts", true}, {"dedup a keepempty=true", "keep", true}, {"dedup a consecutive=true", "keep", true},
-	{"fillnull", "keep", true}, {"eventstats sum(b) as tb", "keep", true}, {"eventstats count as n by a", "keep", true},
+	{"fillnull", "keep", true}, {"bin b", "keep", true}, {"eventstats sum(b) as tb", "keep", true}, {"eventstats count as n by a", "keep", true},
 	{"streamstats sum(b) as rb by a", "keep", true}, {"streamstats current=f count as pc", "keep", true},
 	{"stats dc(a), values(m)", "set", true}, {"stats first(b), last(b)", "set", true},
 }
@@ -245,7 +245,11 @@ func c06Run(w *kernel.Worker, j *c06Job, rep *kernel.Report) (*Fail, error) {
 					return nil, nil
 				}
 				if g := got.canon(ordered); g != want {
-					fp := "C06/parallel/" + cls
+					pcls := cls
+					if len(j.Chain) == 2 && strings.HasPrefix(j.Chain[0], "sort") && (j.Chain[1] == "fillnull" || j.Chain[1] == "bin b") {
+						pcls = "sort+two-pass-command" // one root cause: the rewind for the second pass finds the sorters' results consumed
+					}
+					fp := "C06/parallel/" + pcls
 					if cls == "streamstats-window" {
 						fp = "C06/batching/streamstats-window" // same root cause as under batching: the window is not carried over
 					} else {
@@ -355,8 +359,8 @@ func c06Names(chain []string) []string {
 
 func C06() int {
 	rep := kernel.NewReport("C06", "exploration")
-	rep.Rule = "every command alone and every ordered pair of commands (40 instances: where, eval, fields, rename, fillnull×2, rex, regex, dedup×5, " +
-		"head×4 (plain, with condition, keeplast), tail×2, sort×3, top, rare, bin, streamstats×4, eventstats×2, makemv, mvexpand, stats×5; parsed by the real SPL parser, built by AggsToDataProcessors) " +
+	rep.Rule = "every command alone and every ordered pair of commands (41 instances: where, eval, fields, rename, fillnull×2, rex, regex, dedup×5, " +
+		"head×4 (plain, with condition, keeplast), tail×2, sort×3, top, rare, bin×2 (with and without span), streamstats×4, eventstats×2, makemv, mvexpand, stats×5; parsed by the real SPL parser, built by AggsToDataProcessors) " +
 		"× tables of ≤ n rows over a 6-row alphabet × every composition of the rows into successive batches, with EOF-with-data and an " +
 		"inserted empty batch, output must equal the single-batch output " +
 		"(as a sequence unless the chain contains stats/top/rare). Parallel chains: the same commands and pairs with the chains built by the real SetupQueryParallelism for 2 (thorough: 3) " +
@@ -378,6 +382,13 @@ func C06() int {
 				for _, t := range single {
 					emit(c06Job{Chain: []string{c.Text}, Table: t, NStream: 1})
 				}
+			}
+			// one long table (10 rows, six of them in a row without the numeric field, the extremes after them) for every
+			// command alone: per-batch counters and two-pass commands see long runs of absent values
+			long := []map[string]interface{}{{"a": 1, "b": 5, "m": "x,y"}, {"a": 2, "b": 12, "m": "z"}, {"a": 1}, {"a": 2, "m": "x,y"}, {"m": "z"}, {"a": 3, "m": "q"},
+				{"a": 1, "m": "z"}, {"a": 2}, {"a": 3, "b": 950, "m": "x,y"}, {"a": 1, "b": 40, "m": "q"}}
+			for _, c := range c06Cmds {
+				emit(c06Job{Chain: []string{c.Text}, Table: long, NStream: 1})
 			}
 			// fixed 4-row tables for pairs, plus all short tables
 			fixed := [][]map[string]interface{}{
